@@ -84,9 +84,6 @@ type c10Outcome struct {
 func c10RunReal(src string, c *c10Case) c10Outcome {
 	var out c10Outcome
 	opt := &fsutil.FilterOpt{IncludePatterns: listArg(c.Include, c.EmptyLists), ExcludePatterns: listArg(c.Exclude, c.EmptyLists)}
-	if c.EmptyLists {
-		opt.FollowPaths = []string{}
-	}
 	if c.Map != nil {
 		opt.Map = func(p string, st *types.Stat) fsutil.MapResult {
 			out.calls = append(out.calls, "map:"+p)
